@@ -4,7 +4,9 @@
 EXTENDS MCResCommon
 TypePts == {Pt(k, "wire", 0, FALSE, {}, r) : k \in {"iface", "siface", "ptr", "sptr"}, r \in BOOLEAN}
            \cup {PtF(k, f, r) : k \in {"iface", "siface"}, f \in {"Mark", "Tick"}, r \in BOOLEAN}
-PtLists == {<<a>> : a \in TypePts} \cup {<<a, b>> : a \in TypePts, b \in TypePts}
+           \cup {PtK(k, rt, TRUE) : k \in {"iface", "siface"}, rt \in {{}, {"A"}, {"A", "B"}, {"*"}}}
+CorePts == {Pt(k, "wire", 0, FALSE, {}, TRUE) : k \in {"iface", "siface", "ptr", "sptr"}} \cup {PtF("siface", f, TRUE) : f \in {"Mark", "Tick"}}
+PtLists == {<<a>> : a \in TypePts} \cup {<<a, b>> : a \in TypePts, b \in CorePts}
 \* enumerated by nested quantification: building the set of scenario records first is far slower
 MCInit == \E p \in Pops, l \in PtLists : InitWith([prov |-> p, pts |-> l])
 =============================================================================
